@@ -638,7 +638,10 @@ def to_string_of(p):
     return call(TO_STRING, p)
 
 
-def c14_tables(rep, W, rule="C14"):
+def c14_tables(rep, W, rule="C14", modules=None):
+    """modules: the handler modules whose outcome table (and route) is evaluated -- the check of a property that speaks of
+    one operation's responses composes that operation's rows only (all four for C14 itself)."""
+    modules = tuple(modules or WD.HANDLER_MODULES)
     consts = {
         "version": W.prog.const_value(WD.SERVER + "::api::VERSION_ID_HEADER"),
         "parent": W.prog.const_value(WD.SERVER + "::api::PARENT_VERSION_ID_HEADER"),
@@ -652,7 +655,7 @@ def c14_tables(rep, W, rule="C14"):
         rep.ob(rule, ("const", k), isinstance(consts[k], str) and consts[k].lower() == v,
                "header / content-type constant %s evaluates to %r; the protocol says %r" % (k, consts[k], v), nontrivial=False)
     nrows = 0
-    for module in WD.HANDLER_MODULES:
+    for module in modules:
         body, g, opbb, opterm, outs = handler_outcomes(W, module)
         fn = S.short_fn(body)
         A = _atoms_for(opterm)
@@ -758,7 +761,7 @@ def c14_tables(rep, W, rule="C14"):
             nrows += 1 if cnt else 0
             rep.ob(rule, (fn, "row-present", name), cnt > 0, "protocol outcome %r is %s by the handler" % (name, "handled" if cnt else "NOT produced"), where(body), nontrivial=False)
         rep.extra.setdefault("tables", {})[module] = sorted(set((n, tuple(s) if s else None) for n, s in table), key=repr)
-    rep.floor(rule, "protocol table rows realised", nrows, 18)
+    rep.floor(rule, "protocol table rows realised", nrows, sum({"add_version": 6, "get_child_version": 5, "add_snapshot": 3, "get_snapshot": 4}[m_] for m_ in modules))
     rep.exhaustive = True
     # routes
     want = {"add_version": ("POST", "/v1/client/add-version/{parent_version_id}"),
@@ -767,6 +770,8 @@ def c14_tables(rep, W, rule="C14"):
             "get_snapshot": ("GET", "/v1/client/snapshot")}
     rs = {r["factory"]: r for r in routes(W)}
     for module, (meth, path) in want.items():
+        if module not in modules:
+            continue
         r = rs.get("%s::api::%s::service" % (WD.SERVER, module))
         okr = r is not None and r["method"] == meth and r["path"] is not None and _same_route(r["path"], path) and r["handler"] == W.handler_fn(module).deff
         rep.ob(rule, ("route", module), okr, "route registered as %s %s -> %s; protocol: %s %s" % (
@@ -824,6 +829,44 @@ def storage_reaching_calls(W, body):
     return sorted(set(out))
 
 
+LIMIT_BYTES = 100 * 1024 * 1024      # "body above the 100 MiB limit" (the number is in the property statement)
+
+
+REQUIRED_CT = {"add_version": "application/vnd.taskchampion.history-segment", "add_snapshot": "application/vnd.taskchampion.snapshot"}
+
+
+def refusal_reason(o, module=None):
+    """Why a pre-operation exit refuses, read off its path condition: one of the reasons the statement lists (wrong
+    content type, client-id helper said no, the body stream failed, body over the limit, empty body) -- or None."""
+    if o.status and all(isinstance(x, str) and x.startswith("PayloadError") for x in o.status):
+        return "payload-stream-error"
+    for a, vs in o.val.items():
+        if len(vs) != 1:
+            continue
+        v = next(iter(vs))
+        if a[0] == "VARIANT" and v == "err" and a[1][0] == "ok" and a[1][1][0] == "ok" and a[1][1][1][0] == "call" and a[1][1][1][1] == POLL:
+            return "payload-stream-error"          # the awaited stream item is Some(Err(_))
+        if a[0] == "EQ" and v is False and any(x[0] == "call" and x[1].endswith("HttpMessage::content_type") for x in a[1:3]):
+            return "content-type"
+        if a[0] == "EQ" and v is True and any(x[0] == "call" and x[1].endswith("HttpMessage::content_type") for x in a[1:3]) \
+                and any(x[0] == "const" and isinstance(x[2], str) and x[2].lower() != REQUIRED_CT.get(module, x[2]).lower() for x in a[1:3]):
+            return "content-type"              # equal to ANOTHER type's constant, hence not the required one
+        if a[0] == "VARIANT" and v == "err" and a[1][0] == "call" and a[1][1] == WD.CLIENT_ID_HEADER_FN:
+            return "client-id"
+        if a[0] == "PRED" and v is True and a[1].endswith("::is_empty"):
+            return "empty-body"
+        if a[0] == "EQ" and v is True and any(x[0] == "const" and x[2] == 0 for x in a[1:3]) and any(x[0] == "call" and x[1].endswith("::len") for x in a[1:3]):
+            return "empty-body"
+        if a[0] == "CMP":
+            op, l, r = a[1], a[2], a[3]
+            lim = lambda x: _const_int(x) in (LIMIT_BYTES, LIMIT_BYTES + 1)   # noqa: E731  (a constant, or constant arithmetic: 100 * 1024 * 1024)
+            if lim(l) and ((op in ("Lt", "Le") and v is True) or (op in ("Gt", "Ge") and v is False)):
+                return "over-the-limit"
+            if lim(r) and ((op in ("Gt", "Ge") and v is True) or (op in ("Lt", "Le") and v is False)):
+                return "over-the-limit"
+    return None
+
+
 def c15_refuse(rep, W, rule="C15.REFUSE"):
     floors = {"add_version": 3, "add_snapshot": 3, "get_child_version": 1, "get_snapshot": 1}   # content type, client id, + body refusals (possibly inside a helper)
     for module in WD.HANDLER_MODULES:
@@ -849,6 +892,13 @@ def c15_refuse(rep, W, rule="C15.REFUSE"):
                    "pre-operation exit at line %d answers %s; every refusal decided before the operation must be a 4xx" % (ln, sorted(map(str, sts)) if not unknown else "an unrecognised value"),
                    where(body, line=ln))
             before = [body.line_of_block(b) for b in sr if b == site[0] or g.may_follow(b, site[0])]
+            # "Bodies up to and including the limit are accepted" / AddVersion "is accepted exactly when ..": a request is
+            # turned away before the operation only for a reason the statement lists
+            why = [refusal_reason(o, module) for o in os_]
+            rep.ob(rule, (fn, "refusal#%d" % n, "tabled-reason"), all(why),
+                   "pre-operation exit at line %d refuses for: %s (content type / client id / body stream error / over the 100 MiB limit / empty body); "
+                   "path conditions without such a reason: %s" % (ln, sorted(set(x for x in why if x)) or "-", [G.show_val(o.val)[:160] for o, y in zip(os_, why) if not y][:1] or "none"),
+                   where(body, line=ln))
             rep.ob(rule, (fn, "refusal#%d" % n, "before-any-storage-access"), not before,
                    "no call that reaches storage precedes this refusal; such calls at lines %s" % (before or "none"), where(body, line=ln))
         rep.floor(rule, fn + " refusal exits", n, floors[module], where(body))
@@ -1280,6 +1330,22 @@ def c16(rep, W, rule="C16"):
         f = ("and", ("is", h, "ok"), ("or", ("is", l, "err"), ("is", c, True)))
         rep.ob(rule + ".HELPER", (fn, "ok-only-if-listed"), S.all_vals(gh, site, f),
                "Ok is returned only when no allow-list is configured or the id is in it; offending: %s" % S.failing_vals(gh, site, f)[:1], where(hb, line=S.exit_line(hb, site)))
+    # "with no list every well-formed client id is served / listed clients are served": the only refusals other than the 403
+    # are for a header that is absent, not text, or not a UUID -- no further condition on a well-formed id
+    tsa = [a for a in gh.atoms if a[0] == "VARIANT" and a[1][0] == "call" and a[1][1].endswith("HeaderValue::to_str")]
+    psa = [a for a in gh.atoms if a[0] == "VARIANT" and a[1][0] == "call" and a[1][1].endswith("parse_str")]
+    nref = 0
+    for site, term in S.exits(W, hb):
+        if not S.is_error_exit(term) or m(pat.adt("Result", "Err", ("0", call("actix_web::error::internal::ErrorForbidden", ANY))), term) is not None:
+            continue
+        f = ("is", h, "err")
+        for a_ in tsa + psa:
+            f = ("or", f, ("is", a_, "err"))
+        nref += 1
+        rep.ob(rule + ".HELPER", (fn, "refused-only-if-malformed"), bool(psa) and S.all_vals(gh, site, f),
+               "a refusal other than the 403 is returned only for an absent / non-text / unparsable header; offending: %s" % (S.failing_vals(gh, site, f)[:1] if psa else "no parse_str test found"),
+               where(hb, line=S.exit_line(hb, site)))
+    rep.floor(rule + ".HELPER", "malformed-header refusals", nref, 1, where(hb))
     # membership is tested for the parsed id itself, on the configured list
     okm = parsed is not None and c[2][0] == ("ok", l[1]) and c[2][1] == parsed
     rep.ob(rule + ".HELPER", (fn, "membership-of-parsed-id"), okm, "contains(%s, %s); must be (the configured list, the id that is returned)" % (P.show(c[2][0]), P.show(c[2][1])), where(hb))
@@ -1461,6 +1527,12 @@ def c20(rep, W, rule="C20"):
                     for x in P.walk(a):
                         if x[0] == "const" and (header_name(x) or "").lower() == "cache-control" and b.key != cfg.key:
                             bad.append((b.deff, b.line_of_block(bb)))
+                # a *typed* header (`CacheControl(vec![..])`) names the header through its type, not through a constant:
+                # DefaultHeaders leaves a header that is already present alone, so a response that sets its own
+                # Cache-Control replaces the no-store default whatever directive it carries
+                tys = " ".join([t["callee"].get("def_args") or ""] + [str((a_.get("p") or {}).get("ty", "")) for a_ in t.get("args", []) if isinstance(a_, dict)])
+                if ("::CacheControl" in tys or "::CacheDirective" in tys) and b.key != cfg.key:
+                    bad.append((b.deff, b.line_of_block(bb), "typed CacheControl header"))
     rep.ob(rule + ".NOOVERRIDE", ("server", "no-other-cache-control"), not bad, "header insertions naming Cache-Control outside the scope wrapper: %s" % (bad or "none"))
     rep.floor(rule + ".NOOVERRIDE", "header-insertion sites scanned", n_hdr, 3)
 
@@ -1492,6 +1564,11 @@ def handler_args(rep, W, rule="H-ARGS"):
         if len(ops) != 1:
             rep.fail(rule, (fn, "op-call"), "expected exactly one call of Server::%s" % WD.HANDLER_OP[module], where(body))
             continue
+        # the handler's answer is derived from ONE protocol operation, its own: a second operation (a "fast path" asking
+        # get_child_version before an add_version, say) is a second transaction whose result can be stale or mean something else
+        others = sorted({body.blocks[bb]["term"]["callee"].get("def", "?").split("::")[-1] for bb, t_ in body.calls()
+                         if t_["callee"].get("def", "").startswith(WD.SERVER_TY + "::")} - {WD.HANDLER_OP[module], "txn"})
+        rep.ob(rule, (fn, "only-its-own-operation"), not others, "other Server operations called by the %s handler: %s" % (module, others or "none"), where(body), nontrivial=False)
         args = pv.arg_terms(ops[0][0])
         hf = W.handler_fn(module)
         ptypes = [hf.locals[i]["ty"] for i in range(1, hf.arg_count + 1)]
